@@ -93,7 +93,7 @@ try:
                     observed=str(after), expected=str(before))
     # selection filters
     def ch(old, new, v=(True, True), kind=("file", "file")):
-        return TreeChange(b"id", (old, new), True, v, (None, None), (old, new), kind, (False, False))
+        return TreeChange((old, new), True, v, (old, new), kind, (False, False))
     changes = [ch("a", "a"), ch("x/b", "x/b"), ch("x/c", "y/c"), ch(None, "x"), ch("z", None), ch("xx", "xx")]
     got = [c.path for c in C.filter_excluded(iter(changes), ["x"])]
     exp = [("a", "a"), ("z", None), ("xx", "xx")]
